@@ -24,6 +24,9 @@ func c15Race(user, closer func()) {
 
 func vh_C15_Handler_Post() {
 	h := Handler.New()
+	if c := vfRange("mailbox-capacity", 0, 2); c > 0 {
+		h = Handler.NewByCh(make(chan func(), c)) // the less prominent constructor: a buffered mailbox
+	}
 	ran := 0
 	c15Race(func() { h.Post(func() { ran++ }) }, func() { h.Close() })
 	vfAssert("ran-at-most-once", ran <= 1)
@@ -36,7 +39,11 @@ func vh_C15_Handler_Post() {
 
 func vh_C15_Actor_Send() {
 	got := 0
-	a := ActorNewGenerics(func(self *ActorDef[int], m int) { got++ })
+	effect := func(self *ActorDef[int], m int) { got++ }
+	a := ActorNewGenerics(effect)
+	if c := vfRange("mailbox-capacity", 0, 2); c > 0 {
+		a = ActorNewByOptionsGenerics(effect, make(chan int, c), map[string]interface{}{}) // buffered mailbox
+	}
 	c15Race(func() { a.Send(vfInt("msg")) }, func() { a.Close() })
 	vfAssert("processed-at-most-once", got <= 1)
 	before := got
